@@ -323,4 +323,838 @@ theorem fetchAlignedSigned_spec (d : De) (bl : Nat) (hw : WF d.buf) (hbl : 2 ≤
   rw [signOf_eq _ bl (by omega) (by unfold deField; exact fieldOf_lt _ _)]
 
 
+/-! ### Serializer: unaligned bytes -/
+
+theorem Inv_bit {s : Ser} (h : s.Inv) {i : Nat} (hi : s.off ≤ i) : bitAt s.buf i = false := h.2 i hi
+
+/-- one iteration of the `add_unaligned_bytes` loop -/
+theorem addStep_spec (s : Ser) (b : Nat) (hinv : s.Inv) (hb : b < 256) (hroom : s.off / 8 + 1 < s.buf.length) :
+    ∃ buf2, (do
+        let cur ← get? s.buf (s.off / 8)
+        let buf1 ← set? s.buf (s.off / 8) (cur ||| ((b <<< (s.off % 8)) &&& 255))
+        set? buf1 ((s.off + 8) / 8) (b >>> (8 - s.off % 8))) = Except.ok buf2 ∧
+      buf2.length = s.buf.length ∧ WF buf2 ∧
+      ∀ i, bitAt buf2 i = if i < s.off then bitAt s.buf i else (decide (i < s.off + 8) && b.testBit (i - s.off)) := by
+  have h1 : s.off / 8 < s.buf.length := by omega
+  have e8 : (s.off + 8) / 8 = s.off / 8 + 1 := by omega
+  generalize hcur : s.buf[s.off / 8] = cur
+  have hcurlt : cur < 256 := hcur ▸ WF_getElem hinv.1 h1
+  have hcurbit : ∀ i, i / 8 = s.off / 8 → bitAt s.buf i = cur.testBit (i % 8) := by
+    intro i hi; rw [bitAt_eq_getElem?, hi, List.getElem?_eq_getElem h1, hcur]
+  refine ⟨(s.buf.set (s.off / 8) (cur ||| ((b <<< (s.off % 8)) &&& 255))).set (s.off / 8 + 1) (b >>> (8 - s.off % 8)),
+    ?_, by simp, ?_, ?_⟩
+  · simp only [get?_ok h1, hcur, set?_ok h1, bind, Except.bind, e8]
+    rw [set?_ok (by simp; omega)]
+  · apply WF_set
+    · apply WF_set hinv.1
+      exact Nat.or_lt_two_pow (n := 8) hcurlt (Nat.lt_of_le_of_lt Nat.and_le_right (by omega))
+    · exact Nat.lt_of_le_of_lt (Nat.shiftRight_le _ _) hb
+  · intro i
+    have hj : i % 8 < 8 := Nat.mod_lt _ (by omega)
+    rw [bitAt_set, bitAt_set]
+    simp only [List.length_set]
+    by_cases hA : i / 8 = s.off / 8 + 1
+    · rw [if_pos ⟨hA, by omega⟩, Nat.testBit_shiftRight, if_neg (by omega)]
+      by_cases hB : i < s.off + 8
+      · simp only [hB, decide_true, Bool.true_and]
+        congr 1; omega
+      · simp only [hB, decide_false, Bool.false_and]
+        exact testBit_ge_of_lt_256 hb (by omega)
+    · rw [if_neg (fun c => hA c.1)]
+      by_cases hC : i / 8 = s.off / 8
+      · rw [if_pos ⟨hC, h1⟩, Nat.testBit_or, testBit_and_255, Nat.testBit_shiftLeft, ← hcurbit i hC]
+        by_cases hD : i < s.off
+        · rw [if_pos hD]
+          simp [show ¬ i % 8 ≥ s.off % 8 by omega]
+        · rw [if_neg hD, Inv_bit hinv (by omega)]
+          have : i % 8 - s.off % 8 = i - s.off := by omega
+          simp [show i % 8 ≥ s.off % 8 by omega, show i < s.off + 8 by omega, hj, this]
+      · rw [if_neg (fun c => hC c.1)]
+        by_cases hD : i < s.off
+        · rw [if_pos hD]
+        · rw [if_neg hD, Inv_bit hinv (by omega)]
+          simp [show ¬ i < s.off + 8 by omega]
+
+theorem addUnalignedBytesLoop_spec (value : Buf) : ∀ (s : Ser), s.Inv → WF value →
+    s.off / 8 + value.length < s.buf.length →
+    ∃ s', addUnalignedBytesLoop (s.off % 8) (8 - s.off % 8) s value = .ok s' ∧
+      Appends s s' (8 * value.length) (bitAt value) := by
+  induction value with
+  | nil =>
+    intro s hinv _ _
+    refine ⟨s, rfl, by simp, rfl, hinv, fun i => ?_⟩
+    by_cases h : i < s.off
+    · rw [if_pos h]
+    · rw [if_neg h, Inv_bit hinv (by omega)]; simp [bitAt_nil]
+  | cons b bs ih =>
+    intro s hinv hwv hroom
+    have hb : b < 256 := hwv b List.mem_cons_self
+    simp only [List.length_cons] at hroom
+    obtain ⟨buf2, hstep, hlen2, hwf2, hbits2⟩ := addStep_spec s b hinv hb (by omega)
+    have hinv1 : Ser.Inv ⟨buf2, s.off + 8⟩ := by
+      refine ⟨hwf2, fun i hi => ?_⟩
+      have hi' : s.off + 8 ≤ i := hi
+      show bitAt buf2 i = false
+      rw [hbits2, if_neg (by omega)]
+      simp [show ¬ i < s.off + 8 by omega]
+    have hmod : (s.off + 8) % 8 = s.off % 8 := by omega
+    obtain ⟨s', hs', ha1, ha2, ha3, ha4⟩ := ih ⟨buf2, s.off + 8⟩ hinv1 (WF_tail hwv) (by show (s.off + 8) / 8 + bs.length < buf2.length; omega)
+    simp only [hmod] at hs'
+    refine ⟨s', ?_, ?_, ?_, ha3, fun i => ?_⟩
+    · rw [addUnalignedBytesLoop]
+      have := hstep
+      simp only [bind, Except.bind] at this ⊢
+      revert this
+      cases get? s.buf (s.off / 8) with
+      | error e => intro h; exact absurd h (by simp)
+      | ok cur =>
+        simp only []
+        cases set? s.buf (s.off / 8) (cur ||| ((b <<< (s.off % 8)) &&& 255)) with
+        | error e => intro h; exact absurd h (by simp)
+        | ok buf1 =>
+          simp only []
+          intro h
+          rw [h]
+          exact hs'
+    · simp only [List.length_cons]; rw [ha1]; show s.off + 8 + 8 * bs.length = _; omega
+    · rw [ha2]; exact hlen2
+    · rw [ha4]
+      show (if i < s.off + 8 then bitAt buf2 i else (decide (i < s.off + 8 + 8 * bs.length) && bitAt bs (i - (s.off + 8)))) = _
+      by_cases h1 : i < s.off
+      · rw [if_pos (by omega), hbits2, if_pos h1, if_pos h1]
+      · rw [if_neg h1, bitAt_cons]
+        by_cases h2 : i < s.off + 8
+        · rw [if_pos h2, hbits2, if_neg h1, if_pos (by omega)]
+          simp [h2, show i < s.off + 8 * (bs.length + 1) by omega]
+        · rw [if_neg h2, if_neg (by omega), show i - (s.off + 8) = i - s.off - 8 by omega]
+          simp only [List.length_cons]
+          by_cases h3 : i < s.off + 8 + 8 * bs.length
+          · simp [h3, show i < s.off + 8 * (bs.length + 1) by omega]
+          · simp [h3, show ¬ i < s.off + 8 * (bs.length + 1) by omega]
+
+/-- `add_unaligned_bytes`: on an invariant state with room for the value and the spare byte, exactly the bytes of
+the value are appended. -/
+theorem addUnalignedBytes_spec (s : Ser) (value : Buf) (hinv : s.Inv) (hwv : WF value)
+    (hroom : s.off / 8 + value.length < s.buf.length) :
+    ∃ s', addUnalignedBytes s value = .ok s' ∧ Appends s s' (8 * value.length) (bitAt value) :=
+  addUnalignedBytesLoop_spec value s hinv hwv hroom
+
+
+/-! ### Serializer: unaligned integers and bits -/
+
+theorem bytesLoop_spec (n : Nat) : ∀ v : Nat,
+    (bytesLoop v n).length = n ∧ WF (bytesLoop v n) ∧
+    ∀ i, bitAt (bytesLoop v n) i = (decide (i < 8 * n) && v.testBit i) := by
+  induction n with
+  | zero => intro v; simp [bytesLoop, bitAt_nil, WF]
+  | succ n ih =>
+    intro v
+    obtain ⟨h1, h2, h3⟩ := ih (v >>> 8)
+    rw [bytesLoop]
+    refine ⟨by simp [h1], ?_, fun i => ?_⟩
+    · intro x hx
+      rcases List.mem_cons.mp hx with e | e
+      · rw [e]; exact Nat.lt_of_le_of_lt Nat.and_le_right (by omega)
+      · exact h2 x e
+    · rw [bitAt_cons]
+      by_cases hi : i < 8
+      · rw [if_pos hi, testBit_and_255]
+        simp [hi, show i < 8 * (n + 1) by omega]
+      · rw [if_neg hi, h3, Nat.testBit_shiftRight, show 8 + (i - 8) = i by omega]
+        by_cases h : i < 8 * (n + 1)
+        · simp [h, show i - 8 < 8 * n by omega]
+        · simp [h, show ¬ i - 8 < 8 * n by omega]
+
+/-- `_unsigned_to_bytes`: `ceil(bl/8)` bytes holding the low `bl` bits of the value, zero above -/
+theorem unsignedToBytes_spec (v bl : Nat) (hbl : 1 ≤ bl) :
+    ∃ bs, unsignedToBytes v bl = .ok bs ∧ bs.length = (bl + 7) / 8 ∧ WF bs ∧
+      ∀ i, bitAt bs i = (decide (i < bl) && v.testBit i) := by
+  unfold unsignedToBytes
+  rw [if_neg (by omega)]
+  obtain ⟨h1, h2, h3⟩ := bytesLoop_spec ((bl + 7) / 8) (v &&& (2 ^ bl - 1))
+  refine ⟨_, rfl, h1, h2, fun i => ?_⟩
+  rw [h3, Nat.testBit_and, Nat.testBit_two_pow_sub_one]
+  by_cases h : i < bl
+  · simp [h, show i < 8 * ((bl + 7) / 8) by omega]
+  · simp [h]
+
+/-- `add_unaligned_unsigned`: exactly the low `bl` bits of the value are appended. -/
+theorem addUnalignedUnsigned_spec (s : Ser) (value : Int) (bl : Nat) (hinv : s.Inv) (hv : 0 ≤ value)
+    (hbl : 1 ≤ bl) (hroom : s.off / 8 + (bl + 7) / 8 < s.buf.length) :
+    ∃ s', addUnalignedUnsigned s value bl = .ok s' ∧ Appends s s' bl value.toNat.testBit := by
+  unfold addUnalignedUnsigned
+  obtain ⟨bs, hbs, hlen, hwf, hbits⟩ := unsignedToBytes_spec value.toNat bl hbl
+  obtain ⟨s1, hs1, ha1, ha2, ha3, ha4⟩ := addUnalignedBytes_spec s bs hinv hwf (by omega)
+  have hback : bl ≤ bs.length * 8 := by omega
+  refine ⟨⟨s1.buf, s.off + bl⟩, ?_, rfl, ha2, ⟨ha3.1, fun i hi => ?_⟩, fun i => ?_⟩
+  · simp only [ensureNotNegative, show ¬ value < 0 by omega, if_false, hbs, bind, Except.bind, sub?, hback, if_true,
+      hs1, show bs.length * 8 - bl ≤ s1.off by omega]
+    rw [show s1.off - (bs.length * 8 - bl) = s.off + bl by omega]
+  · have hi' : s.off + bl ≤ i := hi
+    show bitAt s1.buf i = false
+    rw [ha4, if_neg (by omega), hbits]
+    simp [show ¬ i - s.off < bl by omega]
+  · show bitAt s1.buf i = _
+    rw [ha4]
+    by_cases h1 : i < s.off
+    · rw [if_pos h1, if_pos h1]
+    · rw [if_neg h1, if_neg h1, hbits]
+      by_cases h2 : i < s.off + bl
+      · simp [h2, show i < s.off + 8 * bs.length by omega, show i - s.off < bl by omega]
+      · simp [h2, show ¬ i - s.off < bl by omega]
+
+/-- `add_unaligned_signed`: the two's-complement bits of an in-range value are appended. -/
+theorem addUnalignedSigned_spec (s : Ser) (value : Int) (bl : Nat) (hinv : s.Inv) (hbl : 2 ≤ bl)
+    (hlo : -(2 ^ bl) ≤ value) (hroom : s.off / 8 + (bl + 7) / 8 < s.buf.length) :
+    ∃ s', addUnalignedSigned s value bl = .ok s' ∧
+      Appends s s' bl (if value < 0 then 2 ^ bl + value else value).toNat.testBit := by
+  unfold addUnalignedSigned
+  rw [if_neg (by omega)]
+  have hp : (0 : Int) < 2 ^ bl := Int.pow_pos (by omega)
+  exact addUnalignedUnsigned_spec s _ bl hinv (by split <;> omega) (by omega) hroom
+
+/-- `add_unaligned_bit` -/
+theorem addUnalignedBit_spec (s : Ser) (x : Bool) (hinv : s.Inv) (hroom : s.off / 8 < s.buf.length) :
+    ∃ s', addUnalignedBit s x = .ok s' ∧ Appends s s' 1 (fun _ => x) := by
+  unfold addUnalignedBit
+  generalize hcur : s.buf[s.off / 8] = cur
+  have hcurlt : cur < 256 := hcur ▸ WF_getElem hinv.1 hroom
+  have hcurbit : ∀ i, i / 8 = s.off / 8 → bitAt s.buf i = cur.testBit (i % 8) := by
+    intro i hi; rw [bitAt_eq_getElem?, hi, List.getElem?_eq_getElem hroom, hcur]
+  have hbits : ∀ i, bitAt (s.buf.set (s.off / 8) (cur ||| ((if x then 1 else 0) <<< (s.off % 8)))) i
+      = if i < s.off then bitAt s.buf i else (decide (i < s.off + 1) && x) := by
+    intro i
+    rw [bitAt_set]
+    by_cases hC : i / 8 = s.off / 8
+    · rw [if_pos ⟨hC, hroom⟩, Nat.testBit_or, Nat.testBit_shiftLeft, ← hcurbit i hC]
+      by_cases hD : i < s.off
+      · rw [if_pos hD]; simp [show ¬ i % 8 ≥ s.off % 8 by omega]
+      · rw [if_neg hD, Inv_bit hinv (by omega)]
+        by_cases hE : i = s.off
+        · subst hE; cases x <;> simp
+        · have : i % 8 - s.off % 8 ≠ 0 := by omega
+          have h1 : Nat.testBit 1 (i % 8 - s.off % 8) = false := by
+            rw [show (1 : Nat) = 2 ^ 0 from rfl, Nat.testBit_two_pow]; simp; omega
+          cases x <;> simp [show ¬ i < s.off + 1 by omega, h1]
+    · rw [if_neg (fun c => hC c.1)]
+      by_cases hD : i < s.off
+      · rw [if_pos hD]
+      · rw [if_neg hD, Inv_bit hinv (by omega)]; simp [show ¬ i < s.off + 1 by omega]
+  refine ⟨⟨s.buf.set (s.off / 8) (cur ||| ((if x then 1 else 0) <<< (s.off % 8))), s.off + 1⟩, ?_, rfl, by simp,
+    ⟨?_, fun i hi => ?_⟩, hbits⟩
+  · simp only [get?_ok hroom, hcur, set?_ok hroom, bind, Except.bind]
+  · apply WF_set hinv.1
+    have : (if x then 1 else 0) <<< (s.off % 8) < 2 ^ 8 := by
+      have hm : s.off % 8 < 8 := Nat.mod_lt _ (by omega)
+      cases x
+      · simp
+      · simp only [if_true, Nat.one_shiftLeft]; exact Nat.pow_lt_pow_right (by omega) hm
+    exact Nat.or_lt_two_pow (n := 8) hcurlt this
+  · have hi' : s.off + 1 ≤ i := hi
+    show bitAt (s.buf.set _ _) i = false
+    rw [hbits, if_neg (by omega)]; simp [show ¬ i < s.off + 1 by omega]
+
+
+/-! ### Serializer: aligned bytes and integers of arbitrary width -/
+
+theorem writeAll_spec (bs : Buf) : ∀ (buf : Buf) (a : Nat), a + bs.length ≤ buf.length →
+    (writeAll buf a bs).length = buf.length ∧
+    ∀ k, (writeAll buf a bs)[k]? = if a ≤ k ∧ k < a + bs.length then bs[k - a]? else buf[k]? := by
+  induction bs with
+  | nil => intro buf a _; exact ⟨rfl, fun k => by rw [if_neg (by simp)]; rfl⟩
+  | cons b bs ih =>
+    intro buf a h
+    simp only [List.length_cons] at h
+    obtain ⟨h1, h2⟩ := ih (buf.set a b) (a + 1) (by simp; omega)
+    rw [writeAll]
+    refine ⟨by simpa using h1, fun k => ?_⟩
+    rw [h2]
+    simp only [List.length_cons]
+    by_cases hk : k = a
+    · subst hk
+      rw [if_neg (by omega), if_pos (by omega)]
+      simp [show k < buf.length by omega]
+    · have hne : ¬ a = k := fun e => hk e.symm
+      by_cases hin : a + 1 ≤ k ∧ k < a + 1 + bs.length
+      · rw [if_pos hin, if_pos (by omega), show k - a = (k - (a + 1)) + 1 by omega]
+        simp
+      · rw [if_neg hin, if_neg (by omega)]
+        simp [hne]
+
+theorem writeAll_bits (bs buf : Buf) (a : Nat) (h : a + bs.length ≤ buf.length) (i : Nat) :
+    bitAt (writeAll buf a bs) i =
+      if 8 * a ≤ i ∧ i < 8 * (a + bs.length) then bitAt bs (i - 8 * a) else bitAt buf i := by
+  obtain ⟨_, h2⟩ := writeAll_spec bs buf a h
+  rw [bitAt_eq_getElem?, h2]
+  by_cases hin : a ≤ i / 8 ∧ i / 8 < a + bs.length
+  · rw [if_pos hin, if_pos (by omega), bitAt_eq_getElem?, show (i - 8 * a) / 8 = i / 8 - a by omega,
+      show (i - 8 * a) % 8 = i % 8 by omega]
+  · rw [if_neg hin, if_neg (by omega), bitAt_eq_getElem?]
+
+theorem writeAll_WF (bs : Buf) : ∀ (buf : Buf) (a : Nat), WF buf → WF bs → WF (writeAll buf a bs) := by
+  induction bs with
+  | nil => intro buf a h _; exact h
+  | cons b bs ih =>
+    intro buf a h hb
+    rw [writeAll]
+    exact ih _ _ (WF_set h (hb b List.mem_cons_self)) (WF_tail hb)
+
+theorem setSlice_ok (buf : Buf) (a : Nat) (bs : Buf) (h : a + bs.length ≤ buf.length) :
+    setSlice buf a bs = .ok (writeAll buf a bs) := by
+  unfold setSlice
+  simp only []
+  rw [if_pos (by omega)]
+
+/-- writing whole bytes at an aligned cursor: appends the first `n` bits when the rest of the bytes is zero -/
+theorem addAlignedCore (s : Ser) (bs : Buf) (n : Nat) (hinv : s.Inv) (ha : s.off % 8 = 0) (hw : WF bs)
+    (hn : n ≤ 8 * bs.length) (hz : ∀ i, n ≤ i → bitAt bs i = false)
+    (hroom : s.off / 8 + bs.length ≤ s.buf.length) :
+    Appends s ⟨writeAll s.buf (s.off / 8) bs, s.off + n⟩ n (bitAt bs) := by
+  have hb := writeAll_bits bs s.buf (s.off / 8) hroom
+  refine ⟨rfl, (writeAll_spec bs s.buf _ hroom).1, ⟨writeAll_WF bs _ _ hinv.1 hw, fun i hi => ?_⟩, fun i => ?_⟩
+  · have hi' : s.off + n ≤ i := hi
+    show bitAt (writeAll _ _ _) i = false
+    rw [hb]
+    by_cases hin : 8 * (s.off / 8) ≤ i ∧ i < 8 * (s.off / 8 + bs.length)
+    · rw [if_pos hin]; exact hz _ (by omega)
+    · rw [if_neg hin]; exact Inv_bit hinv (by omega)
+  · show bitAt (writeAll _ _ _) i = _
+    rw [hb]
+    by_cases h1 : i < s.off
+    · rw [if_neg (by omega), if_pos h1]
+    · rw [if_neg h1]
+      by_cases hin : 8 * (s.off / 8) ≤ i ∧ i < 8 * (s.off / 8 + bs.length)
+      · rw [if_pos hin, show i - 8 * (s.off / 8) = i - s.off by omega]
+        by_cases h2 : i < s.off + n
+        · simp [h2]
+        · simp [h2, hz (i - s.off) (by omega)]
+      · rw [if_neg hin, Inv_bit hinv (by omega)]
+        simp [show ¬ i < s.off + n by omega]
+
+/-- `add_aligned_bytes` -/
+theorem addAlignedBytes_spec (s : Ser) (x : Buf) (hinv : s.Inv) (ha : s.off % 8 = 0) (hw : WF x)
+    (hroom : s.off / 8 + x.length ≤ s.buf.length) :
+    ∃ s', addAlignedBytes s x = .ok s' ∧ Appends s s' (8 * x.length) (bitAt x) := by
+  refine ⟨⟨writeAll s.buf (s.off / 8) x, s.off + 8 * x.length⟩, ?_, ?_⟩
+  · simp only [addAlignedBytes, assertAligned, ha, if_true, setSlice_ok _ _ _ hroom, bind, Except.bind]
+    rw [show x.length * 8 = 8 * x.length by omega]
+  · exact addAlignedCore s x _ hinv ha hw (by omega) (fun i hi => bitAt_of_ge (by omega)) hroom
+
+/-- `add_aligned_unsigned` -/
+theorem addAlignedUnsigned_spec (s : Ser) (value : Int) (bl : Nat) (hinv : s.Inv) (ha : s.off % 8 = 0)
+    (hv : 0 ≤ value) (hbl : 1 ≤ bl) (hroom : s.off / 8 + (bl + 7) / 8 ≤ s.buf.length) :
+    ∃ s', addAlignedUnsigned s value bl = .ok s' ∧ Appends s s' bl value.toNat.testBit := by
+  obtain ⟨bs, hbs, hlen, hwf, hbits⟩ := unsignedToBytes_spec value.toNat bl hbl
+  have hcore := addAlignedCore s bs bl hinv ha hwf (by omega) (fun i hi => by rw [hbits]; simp; omega) (by omega)
+  refine ⟨_, ?_, hcore.1, hcore.2.1, hcore.2.2.1, fun i => ?_⟩
+  · simp only [addAlignedUnsigned, assertAligned, ha, if_true, ensureNotNegative, show ¬ value < 0 by omega, if_false,
+      hbs, setSlice_ok _ _ _ (show s.off / 8 + bs.length ≤ s.buf.length by omega), bind, Except.bind]
+  · rw [hcore.2.2.2 i, hbits]
+    by_cases h1 : i < s.off
+    · rw [if_pos h1, if_pos h1]
+    · rw [if_neg h1, if_neg h1]
+      by_cases h2 : i < s.off + bl
+      · simp [h2, show i - s.off < bl by omega]
+      · simp [h2]
+
+theorem addAlignedSigned_spec (s : Ser) (value : Int) (bl : Nat) (hinv : s.Inv) (ha : s.off % 8 = 0)
+    (hbl : 2 ≤ bl) (hlo : -(2 ^ bl) ≤ value) (hroom : s.off / 8 + (bl + 7) / 8 ≤ s.buf.length) :
+    ∃ s', addAlignedSigned s value bl = .ok s' ∧
+      Appends s s' bl (if value < 0 then 2 ^ bl + value else value).toNat.testBit := by
+  unfold addAlignedSigned
+  rw [if_neg (by omega)]
+  have hp : (0 : Int) < 2 ^ bl := Int.pow_pos (by omega)
+  exact addAlignedUnsigned_spec s _ bl hinv ha (by split <;> omega) (by omega) hroom
+
+
+/-! ### Serializer: aligned standard-width integers -/
+
+theorem Appends_congr {s s' : Ser} {n : Nat} {f g : Nat → Bool} (h : ∀ i, i < n → f i = g i)
+    (ha : Appends s s' n f) : Appends s s' n g := by
+  obtain ⟨h1, h2, h3, h4⟩ := ha
+  refine ⟨h1, h2, h3, fun i => ?_⟩
+  rw [h4]
+  by_cases hi : i < s.off
+  · rw [if_pos hi, if_pos hi]
+  · rw [if_neg hi, if_neg hi]
+    by_cases h2 : i < s.off + n
+    · simp [h2, h (i - s.off) (by omega)]
+    · simp [h2]
+
+theorem Appends_trans {s s1 s2 : Ser} {n1 n2 : Nat} {f g : Nat → Bool}
+    (ha : Appends s s1 n1 f) (hb : Appends s1 s2 n2 g) :
+    Appends s s2 (n1 + n2) (fun i => if i < n1 then f i else g (i - n1)) := by
+  obtain ⟨a1, a2, a3, a4⟩ := ha
+  obtain ⟨b1, b2, b3, b4⟩ := hb
+  refine ⟨by omega, by omega, b3, fun i => ?_⟩
+  rw [b4, a1]
+  by_cases h1 : i < s.off
+  · rw [if_pos (by omega), a4, if_pos h1, if_pos h1]
+  · rw [if_neg h1]
+    by_cases h2 : i < s.off + n1
+    · rw [if_pos h2, a4, if_neg h1]
+      simp [h2, show i < s.off + (n1 + n2) by omega, show i - s.off < n1 by omega]
+    · rw [if_neg h2, show i - (s.off + n1) = i - s.off - n1 by omega]
+      by_cases h3 : i < s.off + n1 + n2
+      · simp [h3, show i < s.off + (n1 + n2) by omega, show ¬ i - s.off < n1 by omega]
+      · simp [h3, show ¬ i < s.off + (n1 + n2) by omega]
+
+theorem bitAt_single (v i : Nat) : bitAt [v] i = (decide (i < 8) && v.testBit i) := by
+  rw [bitAt_cons]; by_cases h : i < 8 <;> simp [h, bitAt_nil]
+
+/-- `add_aligned_u8` -/
+theorem addAlignedU8_spec (s : Ser) (x : Int) (hinv : s.Inv) (ha : s.off % 8 = 0) (hx : 0 ≤ x) (hx2 : x < 256)
+    (hroom : s.off / 8 + 1 ≤ s.buf.length) :
+    ∃ s', addAlignedU8 s x = .ok s' ∧ Appends s s' 8 x.toNat.testBit := by
+  have hv : x.toNat < 256 := by omega
+  have hcore := addAlignedCore s [x.toNat] 8 hinv ha (by intro y hy; simp at hy; omega) (by simp)
+    (fun i hi => by rw [bitAt_single]; simp; omega) (by simpa using hroom)
+  refine ⟨_, ?_, Appends_congr (fun i hi => by rw [bitAt_single]; simp [hi]) hcore⟩
+  simp only [addAlignedU8, assertAligned, ha, if_true, ensureNotNegative, show ¬ x < 0 by omega, if_false,
+    show ¬ x.toNat ≥ 256 by omega, set?_ok (show s.off / 8 < s.buf.length by omega), bind, Except.bind, writeAll]
+
+theorem Appends_aligned {s s' : Ser} {n : Nat} {f : Nat → Bool} (h : Appends s s' n f) (ha : s.off % 8 = 0)
+    (hn : n % 8 = 0) : s'.off % 8 = 0 ∧ s'.off / 8 = s.off / 8 + n / 8 := by
+  rw [h.1]; omega
+
+/-- `add_aligned_u16` -/
+theorem addAlignedU16_spec (s : Ser) (x : Int) (hinv : s.Inv) (ha : s.off % 8 = 0) (hx : 0 ≤ x)
+    (hroom : s.off / 8 + 2 ≤ s.buf.length) :
+    ∃ s', addAlignedU16 s x = .ok s' ∧ Appends s s' 16 x.toNat.testBit := by
+  generalize hv : x.toNat = v
+  have hm : ∀ y : Nat, ((y &&& 255 : Nat) : Int) < 256 := by
+    intro y; have : y &&& 255 ≤ 255 := Nat.and_le_right; omega
+  obtain ⟨s1, h1, a1⟩ := addAlignedU8_spec s ((v &&& 255 : Nat) : Int) hinv ha (by omega) (hm _) (by omega)
+  obtain ⟨al, ao⟩ := Appends_aligned a1 ha (by omega)
+  obtain ⟨s2, h2, a2⟩ := addAlignedU8_spec s1 (((v >>> 8) &&& 255 : Nat) : Int) a1.2.2.1 al (by omega) (hm _)
+    (by rw [a1.2.1]; omega)
+  refine ⟨s2, ?_, Appends_congr (fun i hi => ?_) (Appends_trans a1 a2)⟩
+  · simp only [addAlignedU16, ensureNotNegative, show ¬ x < 0 by omega, if_false, hv, bind, Except.bind, h1, h2]
+  · simp only [Int.toNat_natCast]
+    by_cases h8 : i < 8
+    · rw [if_pos h8, testBit_and_255]; simp [h8]
+    · rw [if_neg h8, testBit_and_255, Nat.testBit_shiftRight, show 8 + (i - 8) = i by omega]
+      simp [show i - 8 < 8 by omega]
+
+theorem toNat_shiftRight (x : Int) (hx : 0 ≤ x) (k : Nat) : 0 ≤ x >>> k ∧ (x >>> k).toNat = x.toNat >>> k := by
+  obtain ⟨n, rfl⟩ := Int.eq_ofNat_of_zero_le hx
+  constructor
+  · exact Int.natCast_nonneg _
+  · rfl
+
+/-- doubling: `f(x); f(x >> W)` appends `2W` bits when `f` appends `W` -/
+theorem addDouble_spec (W : Nat) (f : Ser → Int → Except Err Ser) (hW : W % 8 = 0)
+    (hf : ∀ (s : Ser) (x : Int), s.Inv → s.off % 8 = 0 → 0 ≤ x → s.off / 8 + W / 8 ≤ s.buf.length →
+      ∃ s', f s x = .ok s' ∧ Appends s s' W x.toNat.testBit)
+    (s : Ser) (x : Int) (hinv : s.Inv) (ha : s.off % 8 = 0) (hx : 0 ≤ x)
+    (hroom : s.off / 8 + (2 * W) / 8 ≤ s.buf.length) :
+    ∃ s', (do let s1 ← f s x; f s1 (x >>> W)) = .ok s' ∧ Appends s s' (2 * W) x.toNat.testBit := by
+  obtain ⟨s1, h1, a1⟩ := hf s x hinv ha hx (by omega)
+  obtain ⟨al, ao⟩ := Appends_aligned a1 ha hW
+  obtain ⟨hs0, hs1⟩ := toNat_shiftRight x hx W
+  obtain ⟨s2, h2, a2⟩ := hf s1 (x >>> W) a1.2.2.1 al hs0 (by rw [a1.2.1]; omega)
+  refine ⟨s2, by simp only [h1, h2, bind, Except.bind], ?_⟩
+  rw [show 2 * W = W + W by omega]
+  refine Appends_congr (fun i hi => ?_) (Appends_trans a1 a2)
+  by_cases h : i < W
+  · rw [if_pos h]
+  · rw [if_neg h, hs1, Nat.testBit_shiftRight, show W + (i - W) = i by omega]
+
+theorem addAlignedU32_spec (s : Ser) (x : Int) (hinv : s.Inv) (ha : s.off % 8 = 0) (hx : 0 ≤ x)
+    (hroom : s.off / 8 + 4 ≤ s.buf.length) :
+    ∃ s', addAlignedU32 s x = .ok s' ∧ Appends s s' 32 x.toNat.testBit :=
+  addDouble_spec 16 addAlignedU16 (by omega)
+    (fun s x hi ha hx hr => addAlignedU16_spec s x hi ha hx (by omega)) s x hinv ha hx (by omega)
+
+theorem addAlignedU64_spec (s : Ser) (x : Int) (hinv : s.Inv) (ha : s.off % 8 = 0) (hx : 0 ≤ x)
+    (hroom : s.off / 8 + 8 ≤ s.buf.length) :
+    ∃ s', addAlignedU64 s x = .ok s' ∧ Appends s s' 64 x.toNat.testBit :=
+  addDouble_spec 32 addAlignedU32 (by omega)
+    (fun s x hi ha hx hr => addAlignedU32_spec s x hi ha hx (by omega)) s x hinv ha hx (by omega)
+
+
+
+/-- `add_aligned_i8/16/32/64` on an in-range value -/
+theorem addAlignedI_spec (W : Nat) (s : Ser) (x : Int) (hW : W = 8 ∨ W = 16 ∨ W = 32 ∨ W = 64) (hinv : s.Inv)
+    (ha : s.off % 8 = 0) (hlo : -(2 ^ (W - 1)) ≤ x) (hhi : x < 2 ^ (W - 1))
+    (hroom : s.off / 8 + W / 8 ≤ s.buf.length) :
+    ∃ s', addAlignedI W s x = .ok s' ∧ Appends s s' W (if x < 0 then 2 ^ W + x else x).toNat.testBit := by
+  unfold addAlignedI
+  have hp : (2 : Int) ^ W = 2 * 2 ^ (W - 1) := by
+    have : W = (W - 1) + 1 := by omega
+    rw [this, Int.pow_succ, Nat.add_sub_cancel]; omega
+  have hpp : (0 : Int) < 2 ^ (W - 1) := Int.pow_pos (by omega)
+  have hu : 0 ≤ (if x < 0 then 2 ^ W + x else x) := by split <;> omega
+  rcases hW with rfl | rfl | rfl | rfl
+  · simp only [if_true]
+    exact addAlignedU8_spec s _ hinv ha hu (by split <;> omega) (by omega)
+  · simp only [show ¬ (16 = 8) by omega, if_false, if_true]
+    exact addAlignedU16_spec s _ hinv ha hu (by omega)
+  · simp only [show ¬ (32 = 8) by omega, show ¬ (32 = 16) by omega, if_false, if_true]
+    exact addAlignedU32_spec s _ hinv ha hu (by omega)
+  · simp only [show ¬ (64 = 8) by omega, show ¬ (64 = 16) by omega, show ¬ (64 = 32) by omega, if_false, if_true]
+    exact addAlignedU64_spec s _ hinv ha hu (by omega)
+
+/-! ### Deserializer: aligned standard widths -/
+
+theorem fetchAlignedU8_spec (d : De) (ha : d.off % 8 = 0) (hw : WF d.buf) :
+    fetchAlignedU8 d = .ok (deField d 8, ⟨d.buf, d.off + 8⟩) := by
+  simp only [fetchAlignedU8, assertAligned, ha, if_true, bind, Except.bind]
+  congr 2
+  apply Nat.eq_of_testBit_eq
+  intro i
+  unfold deField
+  rw [testBit_fieldOf]
+  by_cases hi : i < 8
+  · rw [getByte_testBit _ _ _ hi, show 8 * (d.off / 8) + i = d.off + i by omega]; simp [hi]
+  · rw [getByte_testBit_ge _ hw _ _ (by omega)]; simp [hi]
+
+theorem deField_double (d : De) (W : Nat) :
+    deField d W ||| (deField ⟨d.buf, d.off + W⟩ W <<< W) = deField d (2 * W) := by
+  apply Nat.eq_of_testBit_eq
+  intro i
+  unfold deField
+  rw [Nat.testBit_or, Nat.testBit_shiftLeft, testBit_fieldOf, testBit_fieldOf, testBit_fieldOf]
+  by_cases h1 : i < W
+  · simp [h1, show i < 2 * W by omega, show ¬ i ≥ W by omega]
+  · by_cases h2 : i < 2 * W
+    · simp [h1, h2, show i ≥ W by omega, show i - W < W by omega, show d.off + W + (i - W) = d.off + i by omega]
+    · simp [h1, h2, show ¬ i - W < W by omega]
+
+theorem fetchDouble_spec (W : Nat) (f : De → Except Err (Nat × De)) (hW : W % 8 = 0)
+    (hf : ∀ d : De, d.off % 8 = 0 → WF d.buf → f d = .ok (deField d W, ⟨d.buf, d.off + W⟩))
+    (d : De) (ha : d.off % 8 = 0) (hw : WF d.buf) :
+    (do let (a, d1) ← f d; let (b, d2) ← f d1; Except.ok (a ||| (b <<< W), d2))
+      = .ok (deField d (2 * W), ⟨d.buf, d.off + 2 * W⟩) := by
+  rw [hf d ha hw]
+  simp only [bind, Except.bind]
+  rw [hf ⟨d.buf, d.off + W⟩ (by show (d.off + W) % 8 = 0; omega) hw]
+  simp only []
+  rw [deField_double, show d.off + W + W = d.off + 2 * W by omega]
+
+theorem fetchAlignedU16_spec (d : De) (ha : d.off % 8 = 0) (hw : WF d.buf) :
+    fetchAlignedU16 d = .ok (deField d 16, ⟨d.buf, d.off + 16⟩) :=
+  fetchDouble_spec 8 fetchAlignedU8 (by omega) fetchAlignedU8_spec d ha hw
+
+theorem fetchAlignedU32_spec (d : De) (ha : d.off % 8 = 0) (hw : WF d.buf) :
+    fetchAlignedU32 d = .ok (deField d 32, ⟨d.buf, d.off + 32⟩) :=
+  fetchDouble_spec 16 fetchAlignedU16 (by omega) fetchAlignedU16_spec d ha hw
+
+theorem fetchAlignedU64_spec (d : De) (ha : d.off % 8 = 0) (hw : WF d.buf) :
+    fetchAlignedU64 d = .ok (deField d 64, ⟨d.buf, d.off + 64⟩) :=
+  fetchDouble_spec 32 fetchAlignedU32 (by omega) fetchAlignedU32_spec d ha hw
+
+theorem fetchAlignedU_spec (W : Nat) (d : De) (hW : W = 8 ∨ W = 16 ∨ W = 32 ∨ W = 64) (ha : d.off % 8 = 0)
+    (hw : WF d.buf) : fetchAlignedU W d = .ok (deField d W, ⟨d.buf, d.off + W⟩) := by
+  unfold fetchAlignedU
+  rcases hW with rfl | rfl | rfl | rfl
+  · simp only [if_true]; exact fetchAlignedU8_spec d ha hw
+  · simp only [show ¬ (16 = 8) by omega, if_false, if_true]; exact fetchAlignedU16_spec d ha hw
+  · simp only [show ¬ (32 = 8) by omega, show ¬ (32 = 16) by omega, if_false, if_true]
+    exact fetchAlignedU32_spec d ha hw
+  · simp only [show ¬ (64 = 8) by omega, show ¬ (64 = 16) by omega, show ¬ (64 = 32) by omega, if_false, if_true]
+    exact fetchAlignedU64_spec d ha hw
+
+theorem fetchAlignedI_spec (W : Nat) (d : De) (hW : W = 8 ∨ W = 16 ∨ W = 32 ∨ W = 64) (ha : d.off % 8 = 0)
+    (hw : WF d.buf) :
+    fetchAlignedI W d = .ok
+      (if (deField d W).testBit (W - 1) then (deField d W : Int) - 2 ^ W else (deField d W : Int),
+       ⟨d.buf, d.off + W⟩) := by
+  unfold fetchAlignedI
+  rw [fetchAlignedU_spec W d hW ha hw]
+  simp only [bind, Except.bind]
+  have := signOf_eq (deField d W) W (by omega) (by unfold deField; exact fieldOf_lt _ _)
+  unfold signOf at this
+  rw [this]
+
+
+/-! ### arrays of bits -/
+
+theorem oneBit_testBit (b : Bool) (j : Nat) : (if b then 1 else 0 : Nat).testBit j = (decide (j = 0) && b) := by
+  cases b
+  · simp
+  · simp only [if_true, Bool.and_true]
+    rw [show (1 : Nat) = 2 ^ 0 from rfl, Nat.testBit_two_pow]
+    by_cases h : j = 0 <;> simp [h] <;> omega
+
+theorem packBitsAux_spec (x : List Bool) : ∀ (k cur : Nat), k < 8 → cur < 2 ^ k →
+    (packBitsAux x k cur).length = (k + x.length + 7) / 8 ∧ WF (packBitsAux x k cur) ∧
+    ∀ i, bitAt (packBitsAux x k cur) i = if i < k then cur.testBit i else bitOf x (i - k) := by
+  induction x with
+  | nil =>
+    intro k cur hk hc
+    rw [packBitsAux]
+    by_cases h0 : k = 0
+    · subst h0
+      simp [bitAt_nil, WF, bitOf]
+    · rw [if_neg h0]
+      have h256 : cur < 256 := Nat.lt_of_lt_of_le hc (by
+        have : (2 : Nat) ^ k ≤ 2 ^ 8 := Nat.pow_le_pow_right (by omega) (by omega)
+        omega)
+      refine ⟨by simp; omega, by intro y hy; simp at hy; omega, fun i => ?_⟩
+      rw [bitAt_single]
+      by_cases hi : i < k
+      · simp [hi, show i < 8 by omega]
+      · have : cur.testBit i = false :=
+          Nat.testBit_lt_two_pow (Nat.lt_of_lt_of_le hc (Nat.pow_le_pow_right (by omega) (by omega)))
+        simp [hi, this, bitOf]
+  | cons b bs ih =>
+    intro k cur hk hc
+    rw [packBitsAux]
+    generalize hc' : cur ||| ((if b then 1 else 0) <<< k) = cur'
+    have hlt' : cur' < 2 ^ (k + 1) := by
+      rw [← hc']
+      apply Nat.or_lt_two_pow
+      · exact Nat.lt_of_lt_of_le hc (Nat.pow_le_pow_right (by omega) (by omega))
+      · cases b
+        · simp; exact Nat.two_pow_pos _
+        · simp only [if_true, Nat.one_shiftLeft]; exact Nat.pow_lt_pow_right (by omega) (by omega)
+    have hbit' : ∀ i, cur'.testBit i = if i < k then cur.testBit i else (decide (i = k) && b) := by
+      intro i
+      rw [← hc', Nat.testBit_or, Nat.testBit_shiftLeft, oneBit_testBit]
+      by_cases hi : i < k
+      · simp [hi, show ¬ i ≥ k by omega]
+      · have : cur.testBit i = false :=
+          Nat.testBit_lt_two_pow (Nat.lt_of_lt_of_le hc (Nat.pow_le_pow_right (by omega) (by omega)))
+        by_cases he : i = k
+        · subst he; simp [this]
+        · simp [hi, this, he, show i ≥ k by omega, show ¬ i - k = 0 by omega]
+    by_cases h7 : k = 7
+    · subst h7
+      rw [if_pos rfl]
+      obtain ⟨l1, w1, b1⟩ := ih 0 0 (by omega) (by simp)
+      refine ⟨by simp [l1]; omega, ?_, fun i => ?_⟩
+      · intro y hy
+        rcases List.mem_cons.mp hy with e | e
+        · rw [e]; exact hlt'
+        · exact w1 y e
+      · rw [bitAt_cons]
+        by_cases hi : i < 8
+        · rw [if_pos hi, hbit']
+          by_cases h : i < 7
+          · rw [if_pos h, if_pos h]
+          · have : i = 7 := by omega
+            subst this; simp [bitOf]
+        · rw [if_neg hi, b1, if_neg (by omega), if_neg (by omega)]
+          simp [bitOf, show i - 7 = (i - 8) + 1 by omega]
+    · rw [if_neg h7]
+      obtain ⟨l1, w1, b1⟩ := ih (k + 1) cur' (by omega) hlt'
+      refine ⟨by rw [l1]; simp; omega, w1, fun i => ?_⟩
+      rw [b1]
+      by_cases hi : i < k
+      · rw [if_pos (by omega), if_pos hi, hbit', if_pos hi]
+      · by_cases he : i = k
+        · subst he; rw [if_pos (by omega), if_neg hi, hbit', if_neg hi]; simp [bitOf]
+        · rw [if_neg (by omega), if_neg hi]
+          simp [bitOf, show i - k = (i - (k + 1)) + 1 by omega]
+
+/-- `numpy.packbits(x, bitorder="little")` -/
+theorem packBits_spec (x : List Bool) :
+    (packBits x).length = (x.length + 7) / 8 ∧ WF (packBits x) ∧ ∀ i, bitAt (packBits x) i = bitOf x i := by
+  unfold packBits
+  obtain ⟨h1, h2, h3⟩ := packBitsAux_spec x 0 0 (by omega) (by simp)
+  refine ⟨by simpa using h1, h2, fun i => ?_⟩
+  rw [h3]; simp
+
+theorem bitOf_ge (x : List Bool) (i : Nat) (h : x.length ≤ i) : bitOf x i = false := by
+  simp [bitOf, h]
+
+/-- `add_unaligned_array_of_bits` -/
+theorem addUnalignedArrayOfBits_spec (s : Ser) (x : List Bool) (hinv : s.Inv)
+    (hroom : s.off / 8 + (x.length + 7) / 8 < s.buf.length) :
+    ∃ s', addUnalignedArrayOfBits s x = .ok s' ∧ Appends s s' x.length (bitOf x) := by
+  unfold addUnalignedArrayOfBits
+  obtain ⟨hlen, hwf, hbits⟩ := packBits_spec x
+  obtain ⟨s1, hs1, ha1, ha2, ha3, ha4⟩ := addUnalignedBytes_spec s (packBits x) hinv hwf (by omega)
+  have hback : x.length ≤ (packBits x).length * 8 := by omega
+  refine ⟨⟨s1.buf, s.off + x.length⟩, ?_, rfl, ha2, ⟨ha3.1, fun i hi => ?_⟩, fun i => ?_⟩
+  · simp only [bind, Except.bind, sub?, hback, if_true, hs1,
+      show (packBits x).length * 8 - x.length ≤ s1.off by omega]
+    rw [show s1.off - ((packBits x).length * 8 - x.length) = s.off + x.length by omega]
+  · have hi' : s.off + x.length ≤ i := hi
+    show bitAt s1.buf i = false
+    rw [ha4, if_neg (by omega), hbits, bitOf_ge x _ (by omega)]; simp
+  · show bitAt s1.buf i = _
+    rw [ha4]
+    by_cases h1 : i < s.off
+    · rw [if_pos h1, if_pos h1]
+    · rw [if_neg h1, if_neg h1, hbits]
+      by_cases h2 : i < s.off + x.length
+      · simp [h2, show i < s.off + 8 * (packBits x).length by omega]
+      · simp [h2, bitOf_ge x _ (show x.length ≤ i - s.off by omega)]
+
+/-- `add_aligned_array_of_bits` -/
+theorem addAlignedArrayOfBits_spec (s : Ser) (x : List Bool) (hinv : s.Inv) (ha : s.off % 8 = 0)
+    (hroom : s.off / 8 + (x.length + 7) / 8 ≤ s.buf.length) :
+    ∃ s', addAlignedArrayOfBits s x = .ok s' ∧ Appends s s' x.length (bitOf x) := by
+  obtain ⟨hlen, hwf, hbits⟩ := packBits_spec x
+  have hcore := addAlignedCore s (packBits x) x.length hinv ha hwf (by omega)
+    (fun i hi => by rw [hbits]; exact bitOf_ge x i hi) (by omega)
+  refine ⟨_, ?_, Appends_congr (fun i _ => hbits i) hcore⟩
+  simp only [addAlignedArrayOfBits, assertAligned, ha, if_true, show ¬ (packBits x).length * 8 < x.length by omega,
+    if_false, setSlice_ok _ _ _ (show s.off / 8 + (packBits x).length ≤ s.buf.length by omega), bind, Except.bind]
+
+theorem filterMap_eq_map_of_some {α β} (f : α → Option β) (g : α → β) (l : List α)
+    (h : ∀ a ∈ l, f a = some (g a)) : l.filterMap f = l.map g := by
+  induction l with
+  | nil => rfl
+  | cons a l ih =>
+    rw [List.filterMap_cons, h a List.mem_cons_self, List.map_cons,
+      ih (fun b hb => h b (List.mem_cons_of_mem _ hb))]
+
+theorem unpackBits_spec (bs : Buf) (count : Nat) (h : count ≤ 8 * bs.length) :
+    unpackBits bs count = (List.range count).map (bitAt bs) := by
+  unfold unpackBits
+  apply filterMap_eq_map_of_some
+  intro i hi
+  have : i < count := List.mem_range.mp hi
+  have hlt : i / 8 < bs.length := by omega
+  simp [bitAt, hlt]
+
+theorem fetchUnalignedArrayOfBits_spec (d : De) (count : Nat) (hw : WF d.buf) :
+    fetchUnalignedArrayOfBits d count
+      = .ok ((List.range count).map (fun i => bitAt d.buf (d.off + i)), ⟨d.buf, d.off + count⟩) := by
+  unfold fetchUnalignedArrayOfBits
+  dsimp only
+  obtain ⟨bs, h1, h2, h3, h4⟩ := fetchUnalignedBytes_spec d ((count + 7) / 8) hw
+  rw [h1]
+  simp only [bind, Except.bind, sub?, show count ≤ (count + 7) / 8 * 8 by omega, if_true,
+    show (count + 7) / 8 * 8 - count ≤ d.off + (count + 7) / 8 * 8 by omega]
+  rw [show d.off + (count + 7) / 8 * 8 - ((count + 7) / 8 * 8 - count) = d.off + count by omega,
+    unpackBits_spec bs count (by omega)]
+  congr 2
+  apply List.map_congr_left
+  intro i hi
+  have : i < count := List.mem_range.mp hi
+  rw [h4]; simp; omega
+
+theorem fetchAlignedArrayOfBits_spec (d : De) (count : Nat) (ha : d.off % 8 = 0) :
+    fetchAlignedArrayOfBits d count
+      = .ok ((List.range count).map (fun i => bitAt d.buf (d.off + i)), ⟨d.buf, d.off + count⟩) := by
+  unfold fetchAlignedArrayOfBits
+  obtain ⟨bs, h1, h2, _, h4⟩ := slice_bits d.buf (d.off / 8) (d.off / 8 + (count + 7) / 8) (by omega)
+  simp only [assertAligned, ha, if_true, h1, bind, Except.bind]
+  rw [unpackBits_spec bs count (by omega)]
+  congr 2
+  apply List.map_congr_left
+  intro i hi
+  have : i < count := List.mem_range.mp hi
+  rw [h4, show 8 * (d.off / 8) = d.off by omega]; simp; omega
+
+
+/-! ### padding -/
+
+theorem padBits_zero (off n : Nat) (h : off % n = 0) : padBits off n = 0 := by
+  unfold padBits; rw [h, Nat.sub_zero, Nat.mod_self]
+
+theorem padBits_succ (off n : Nat) (hn : 0 < n) (h : off % n ≠ 0) : padBits (off + 1) n + 1 = padBits off n := by
+  unfold padBits
+  have hr : off % n < n := Nat.mod_lt _ hn
+  have hd := Nat.div_add_mod off n
+  generalize off % n = r at *
+  generalize off / n = q at *
+  have e1 : (n - r) % n = n - r := Nat.mod_eq_of_lt (by omega)
+  rw [e1]
+  by_cases hlast : r + 1 = n
+  · have : (off + 1) % n = 0 := by
+      have : off + 1 = n * (q + 1) := by rw [Nat.mul_add, Nat.mul_one]; omega
+      rw [this, Nat.mul_mod_right]
+    rw [this, Nat.sub_zero, Nat.mod_self]; omega
+  · have : (off + 1) % n = r + 1 := by
+      have : off + 1 = n * q + (r + 1) := by omega
+      rw [this, Nat.mul_add_mod, Nat.mod_eq_of_lt (by omega)]
+    rw [this, Nat.mod_eq_of_lt (by omega)]; omega
+
+theorem padBits_lt (off n : Nat) (hn : 0 < n) : padBits off n < n := Nat.mod_lt _ hn
+
+theorem padBits_aligned (off n : Nat) (hn : 0 < n) : (off + padBits off n) % n = 0 := by
+  unfold padBits
+  have hr : off % n < n := Nat.mod_lt _ hn
+  by_cases h : off % n = 0
+  · rw [h, Nat.sub_zero, Nat.mod_self, Nat.add_zero, h]
+  · have e1 : (n - off % n) % n = n - off % n := Nat.mod_eq_of_lt (by omega)
+    rw [e1]
+    have hd := Nat.div_add_mod off n
+    have : off + (n - off % n) = n * (off / n + 1) := by rw [Nat.mul_add, Nat.mul_one]; omega
+    rw [this, Nat.mul_mod_right]
+
+theorem dePadLoop_spec (n : Nat) (hn : 0 < n) (fuel : Nat) : ∀ off, padBits off n ≤ fuel →
+    dePadLoop n fuel off = .ok (off + padBits off n) := by
+  induction fuel with
+  | zero =>
+    intro off h
+    have h0 : padBits off n = 0 := by omega
+    have : off % n = 0 := by
+      by_cases c : off % n = 0
+      · exact c
+      · have := padBits_succ off n hn c; omega
+    simp [dePadLoop, this, h0]
+  | succ fuel ih =>
+    intro off h
+    rw [dePadLoop]
+    by_cases c : off % n ≠ 0
+    · have hs := padBits_succ off n hn c
+      rw [if_pos c, ih (off + 1) (by omega)]
+      congr 1; omega
+    · have c' : off % n = 0 := by omega
+      rw [if_neg c, padBits_zero off n c']; rfl
+
+/-- `Deserializer.pad_to_alignment` -/
+theorem dePadToAlignment_spec (d : De) (n : Nat) (hn : 0 < n) :
+    dePadToAlignment d n = .ok ⟨d.buf, d.off + padBits d.off n⟩ := by
+  unfold dePadToAlignment
+  rw [if_neg (by omega), dePadLoop_spec n hn n d.off (Nat.le_of_lt (padBits_lt _ _ hn))]
+  rfl
+
+theorem padLoop_spec (n : Nat) (hn : 0 < n) (fuel : Nat) : ∀ s : Ser, s.Inv → padBits s.off n ≤ fuel →
+    (padBits s.off n ≠ 0 → (s.off + padBits s.off n - 1) / 8 < s.buf.length) →
+    ∃ s', padLoop n fuel s = .ok s' ∧ Appends s s' (padBits s.off n) (fun _ => false) := by
+  have hstay : ∀ s : Ser, s.Inv → Appends s s 0 (fun _ => false) := by
+    intro s hinv
+    refine ⟨rfl, rfl, hinv, fun i => ?_⟩
+    by_cases h : i < s.off
+    · rw [if_pos h]
+    · rw [if_neg h, Inv_bit hinv (by omega)]; simp
+  induction fuel with
+  | zero =>
+    intro s hinv h _
+    have h0 : padBits s.off n = 0 := by omega
+    have : s.off % n = 0 := by
+      by_cases c : s.off % n = 0
+      · exact c
+      · have := padBits_succ s.off n hn c; omega
+    refine ⟨s, by simp [padLoop, this], ?_⟩
+    rw [h0]; exact hstay s hinv
+  | succ fuel ih =>
+    intro s hinv h hroom
+    rw [padLoop]
+    by_cases c : s.off % n ≠ 0
+    · have hs := padBits_succ s.off n hn c
+      rw [if_pos c]
+      obtain ⟨s1, h1, a1⟩ := addUnalignedBit_spec s false hinv (by have := hroom (by omega); omega)
+      have ho : s1.off = s.off + 1 := a1.1
+      obtain ⟨s2, h2, a2⟩ := ih s1 a1.2.2.1 (by rw [ho]; omega) (by
+        intro hne
+        rw [ho, a1.2.1]
+        have := hroom (by omega)
+        omega)
+      refine ⟨s2, by simp only [h1, h2, bind, Except.bind], ?_⟩
+      rw [ho] at a2
+      have := Appends_trans a1 a2
+      rw [show 1 + padBits (s.off + 1) n = padBits s.off n by omega] at this
+      exact Appends_congr (fun i _ => by split <;> rfl) this
+    · have c' : s.off % n = 0 := by omega
+      rw [if_neg c, padBits_zero s.off n c']
+      exact ⟨s, rfl, hstay s hinv⟩
+
+/-- `Serializer.pad_to_alignment`: zero bits up to the next multiple of `n` -/
+theorem padToAlignment_spec (s : Ser) (n : Nat) (hn : 0 < n) (hinv : s.Inv)
+    (hroom : padBits s.off n ≠ 0 → (s.off + padBits s.off n - 1) / 8 < s.buf.length) :
+    ∃ s', padToAlignment s n = .ok s' ∧ Appends s s' (padBits s.off n) (fun _ => false) ∧ s'.off % n = 0 := by
+  unfold padToAlignment
+  rw [if_neg (by omega)]
+  obtain ⟨s', h1, a1⟩ := padLoop_spec n hn n s hinv (Nat.le_of_lt (padBits_lt _ _ hn)) hroom
+  exact ⟨s', h1, a1, by rw [a1.1]; exact padBits_aligned _ _ hn⟩
+
+
 end NunavutVerif.Bits.Py
